@@ -572,6 +572,24 @@ Definition sub_new_context (o : ctx_order) (config : nat -> option Z) (fwd : nat
 Definition sub_extend_context (fwd : nat -> option Z) : nat -> option Z := later_wins (fun _ => None) fwd.
 
 (* ====================================================================== *)
+(** * Part 5: the cache identity of the _subrun_root_task call             *)
+(* ====================================================================== *)
+(** hash_args_eval leaves the task's config_args out of args_hash / eval_hash; everything else is in *)
+Inductive rtarg := AExpr | AConfig | AConfigDir | ALoadModules | ARunConfig | ANewExecution | AJobInfo | AExportOptions.
+Definition rtarg_eqb (a b : rtarg) : bool :=
+  match a, b with
+  | AExpr, AExpr | AConfig, AConfig | AConfigDir, AConfigDir | ALoadModules, ALoadModules | ARunConfig, ARunConfig
+  | ANewExecution, ANewExecution | AJobInfo, AJobInfo | AExportOptions, AExportOptions => true
+  | _, _ => false
+  end.
+Definition all_rtargs : list rtarg :=
+  [AExpr; AConfig; AConfigDir; ALoadModules; ARunConfig; ANewExecution; AJobInfo; AExportOptions].
+Definition shipped_config_args : list rtarg := [AConfig; AConfigDir; ALoadModules; ARunConfig].
+(** the key of a call with argument values [a] *)
+Definition root_key (config_args : list rtarg) (a : rtarg -> Z) : list Z :=
+  map a (filter (fun x => negb (existsb (rtarg_eqb x) config_args)) all_rtargs).
+
+(* ====================================================================== *)
 (** * Decidable equalities used by the correspondence cases (harness)      *)
 (* ====================================================================== *)
 Definition opt_eqb {A} (e : A -> A -> bool) (a b : option A) : bool :=
